@@ -285,6 +285,7 @@ type c08Obs struct {
 	Hang      bool
 	Panic     string
 	ErrHit    bool // the injected error was actually returned to the loop
+	InjSeen   bool // the injected error itself is in Errors() right after Wait()
 	Yields    int32
 	Gaps      int32
 	ClosedEvt int32
@@ -406,6 +407,7 @@ func (r *c08Run) exec() (obs c08Obs) {
 	}
 	type res struct {
 		nerr  int
+		inj   bool
 		panic string
 	}
 	done := make(chan res, 1)
@@ -424,11 +426,17 @@ func (r *c08Run) exec() (obs c08Obs) {
 			atomic.AddInt32(&late, 1)
 		}
 		atomic.StoreInt32(&waited, 1)
-		rr.nerr = len(loop.Errors())
+		errs := loop.Errors() // read immediately after Wait(), as a caller does
+		rr.nerr = len(errs)
+		for _, e := range errs {
+			if e != nil && strings.Contains(e.Error(), "injected") {
+				rr.inj = true
+			}
+		}
 	}()
 	select {
 	case rr := <-done:
-		obs.NErrors, obs.Panic = rr.nerr, rr.panic
+		obs.NErrors, obs.Panic, obs.InjSeen = rr.nerr, rr.panic, rr.inj
 	case <-time.After(30 * time.Second):
 		obs.Hang = true
 		return
@@ -586,6 +594,8 @@ func (r *c08Run) check(o *Out, emit bool) {
 	o.Stat("obs_err")
 	if obs.NErrors == 0 {
 		o.Fail("error-reported", "a callback/listing error was returned to the loop but Errors() is empty", "C08-error-lost", d)
+	} else if !obs.InjSeen {
+		o.Fail("error-reported", "a callback/listing error was returned to the loop but it is not in Errors() when Wait() returns (only the cancellation is)", "C08-error-lost", d)
 	}
 	if !c08SubMultiset(obs.Items, exp) {
 		o.Fail("at-most-once", "callbacks are not a sub-multiset of the selected set: "+c08Diff(exp, obs.Items), "C08-at-most-once", d)
@@ -797,6 +807,7 @@ func runC08(o *Out, rng *RNG, tier string, replay string) {
 		"no callback running or starting after Wait(), injected error => Errors() non-empty, no error => Errors() empty, watchdog 30 s; "+
 		"every run is also a Coq case: observed callback list vs Model.Loop.sel_list on (tree, filter tables)", rep, n)
 	c08Forced(o, rep)
+	c08ErrorStorm(o, rng.Fork(), tier)
 	wideEmitted := 0
 	for i := 0; i < n; i++ {
 		r := c08GenRun(rng.Fork(), tier, i)
